@@ -183,6 +183,98 @@ func writeRec(b *strings.Builder, n *Node, root bool) {
 	}
 }
 
+// Style is a presentation of the same Newick tree as other programs and platforms write it:
+// the tree wrapped over several lines (LF or CRLF line ends) after commas and after tip names,
+// numbers in exponent notation with an upper-case E (Java style: 1.0E-4). Blanks and line ends go
+// only where every Newick reader takes them for layout: after a ',' and right after a tip name.
+type Style struct {
+	NL        string `json:"nl,omitempty"`         // line end used for wrapping ("" = one line)
+	Every     int    `json:"every,omitempty"`      // wrap after every Every-th comma
+	AfterTips bool   `json:"after_tips,omitempty"` // wrap right after tip names too
+	ENum      bool   `json:"enum,omitempty"`       // numbers as d.dddE±dd
+	Indent    string `json:"indent,omitempty"`     // blanks written after each line end
+}
+
+// StyleOf chooses a style from the text itself (a pure function of the case: replays identically);
+// about two texts in three stay as they are.
+func StyleOf(text string) Style {
+	h := uint32(2166136261)
+	for i := 0; i < len(text); i++ {
+		h = (h ^ uint32(text[i])) * 16777619
+	}
+	switch h % 18 {
+	case 0:
+		return Style{NL: "\n", Every: 3}
+	case 1:
+		return Style{NL: "\r\n", Every: 3}
+	case 2:
+		return Style{NL: "\r\n", Every: 1, AfterTips: true}
+	case 3:
+		return Style{ENum: true}
+	case 4:
+		return Style{ENum: true, NL: "\r\n", Every: 2, Indent: "  "}
+	case 5:
+		return Style{NL: "\n", Every: 1, AfterTips: true, Indent: "\t"}
+	}
+	return Style{}
+}
+
+func (st Style) num(x float64) string {
+	if st.ENum && !math.IsInf(x, 0) && !math.IsNaN(x) {
+		return strconv.FormatFloat(x, 'E', -1, 64)
+	}
+	return fmtF(x)
+}
+
+// WriteStyled emits the model like Write, laid out in the given style.
+func WriteStyled(n *Node, st Style) string {
+	var b strings.Builder
+	k := 0
+	var rec func(n *Node, root bool)
+	rec = func(n *Node, root bool) {
+		if len(n.Ch) > 0 {
+			b.WriteByte('(')
+			for i, c := range n.Ch {
+				if i > 0 {
+					b.WriteByte(',')
+					k++
+					if st.NL != "" && st.Every > 0 && k%st.Every == 0 {
+						b.WriteString(st.NL + st.Indent)
+					}
+				}
+				rec(c, false)
+			}
+			b.WriteByte(')')
+		}
+		b.WriteString(n.Name)
+		if len(n.Ch) == 0 && n.Name != "" && st.AfterTips && st.NL != "" {
+			b.WriteString(st.NL + st.Indent)
+		}
+		if !root && n.Sup != nil && n.Name == "" {
+			b.WriteString(st.num(*n.Sup))
+			if n.Pv != nil {
+				b.WriteByte('/')
+				b.WriteString(st.num(*n.Pv))
+			}
+		}
+		for _, c := range n.Com {
+			b.WriteString("[" + c + "]")
+		}
+		if !root {
+			if n.Len != nil {
+				b.WriteByte(':')
+				b.WriteString(st.num(*n.Len))
+			}
+			for _, c := range n.BCom {
+				b.WriteString("[" + c + "]")
+			}
+		}
+	}
+	rec(n, true)
+	b.WriteByte(';')
+	return b.String()
+}
+
 // ---------------------------------------------------------------------------------------
 // Reader (recursive descent) for the dialect above.
 
